@@ -349,4 +349,510 @@ theorem Ctx.dispatch {code : Code} {A : List FnAnn} {s : VMState} {f : Frame}
       simp only [Bool.not_eq_true'] at he
       rw [he] at hu; cases hu
 
+/-! ## Soundness, instruction by instruction -/
+
+/-- How the list of activation bases changes in one step: unchanged, one pushed, one popped. -/
+def Rel (bs0 bs' : List Base) : Prop := bs' = bs0 ∨ (∃ Bn, bs' = Bn :: bs0) ∨ bs' = bs0.tail
+
+/-- What soundness says about one answer of `step`: a normal step re-establishes the invariant;
+a throw that is dispatched to a handler of the running activation (`hasHandler`) re-establishes
+it in the state in which the handler starts; a panic is none of the four excluded ones. -/
+def Sound (code : Code) (A : List FnAnn) (bs0 : List Base) (hasHandler : Prop) : StepRes → Prop :=
+  Sat3 (fun s' => ∃ bs', InvB code A s' bs' ∧ Rel bs0 bs')
+    (fun x s' => ∀ msg tsp, x = .throw msg tsp → hasHandler →
+      ∀ s'', throwTo s' msg tsp = .cont s'' → InvB code A s'' bs0)
+    (fun why => why ≠ "stack underflow" ∧ NoBad why)
+
+theorem _root_.HmsProofs.Lemmas.VMStep.Sat3.mono' {N N' : VMState → Prop} {I I' : Interrupt → VMState → Prop}
+    {P P' : String → Prop} {r : StepRes}
+    (h : Sat3 N I P r) (hN : ∀ s, r = .next s → N s → N' s) (hI : ∀ i s, r = .intr i s → I i s → I' i s)
+    (hP : ∀ w s, r = .panic w s → P w → P' w) : Sat3 N' I' P' r := by
+  cases r with
+  | next s => exact hN s rfl h
+  | intr i s => exact hI i s rfl h
+  | panic w s => exact hP w s rfl h
+
+section
+variable {code : Code} {A : List FnAnn} {s : VMState} {f : Frame}
+  {rest : List Frame} {c : FnCode} {fa : FnAnn} {a : Ann} {B : Base} {bs : List Base} {hd' : List Handler}
+  {i : RInstr} {sp : Span} {pops : Nat} {l : List (Nat × Ann)} {t : Nat}
+
+theorem Ctx.adv (cx : Ctx code A s f rest c fa a B bs hd') :
+    advCalls s.calls = { f with ip := f.ip + 1 } :: rest := by
+  rw [cx.calls]; rfl
+
+theorem same {s' : VMState} (h : InvB code A s' (B :: bs)) : ∃ bs', InvB code A s' bs' ∧ Rel (B :: bs) bs' :=
+  ⟨_, h, Or.inl rfl⟩
+
+theorem simple_sound (cx : Ctx code A s f rest c fa a B bs hd')
+    (po : PointOK code A f.fn c fa f.ip a i sp pops l) (lim : Limits) {p q : Nat}
+    (hse : simpleEff i = some (p, q)) : Sound code A (B :: bs) (a.hs ≠ []) (step code lim s i sp) := by
+  have hsucc := po.succ
+  rw [succs_simple hse] at hsucc
+  split at hsucc
+  · rename_i hp
+    simp only [Option.some.injEq, Prod.mk.injEq] at hsucc
+    obtain ⟨rfl, rfl⟩ := hsucc
+    have hflow := po.flow (f.ip + 1, { a with h := a.h - p + q }) (by simp)
+    have hle := cx.hh
+    refine (simple_spec code lim s i sp p q hse).mono' ?_ ?_ ?_
+    · rintro s' hst ⟨h1, h2, h3, h4, h5, h6⟩
+      refine same (cx.intra (by rw [h3, cx.adv]) hflow (by simp only; omega) (by rw [h5, cx.mp]) (by rw [h4, cx.hd]) ?_)
+      intro i' sp' n hi' hu hn
+      -- the only way to fall through onto a dynamic-count instruction is from its `copyPush`
+      obtain ⟨v, spv, hk, hv0, hv1, rfl⟩ := argcAt_succ hn
+      have := po.instr
+      rw [hk] at this
+      simp only [Option.some.injEq, Prod.mk.injEq] at this
+      obtain ⟨rfl, rfl⟩ := this
+      rw [step_copyPush_int] at hst
+      simp only [StepRes.next.injEq] at hst
+      subst hst
+      exact ⟨none, s.stack, by simp [Int.toNat_of_nonneg hv0]⟩
+    · rintro x s' _ ⟨h1, h2, h3, h4, h5, h6, h7⟩ msg tsp _ hne s'' ht
+      exact cx.dispatch po.handler po.entry hne h5 (Or.inl h4) h2 ht
+    · rintro why _ _ ⟨h1, h2⟩
+      exact ⟨fun e => by have := h1 e; omega, h2⟩
+  · cases hsucc
+
+/-- Falling through from an instruction that is not `copyPush (int _)` never lands on a
+dynamic-count instruction. -/
+theorem site_ft (hi : c[f.ip]? = some (i, sp)) (hne : ∀ v, i ≠ .copyPush (.int v)) {stk : List SVal} :
+    ∀ i' sp' n, c[f.ip + 1]? = some (i', sp') → usesArgc i' = true → argcAt c (f.ip + 1) = some n →
+      ∃ o tl, stk = ⟨.int (I64.ofInt n), o⟩ :: tl := by
+  intro i' sp' n _ _ hn
+  exact (site_fallthrough hi hne hn).elim
+
+/-- A jump never lands on a dynamic-count instruction. -/
+theorem site_tg (cx : Ctx code A s f rest c fa a B bs hd') (hi : c[f.ip]? = some (i, sp))
+    (hj : i = .jump t ∨ i = .jumpIfFalse t ∨ ∃ fn, i = .setTry fn t) {a' : Ann}
+    (hp : fa.pts[t]? = some (some a')) {stk : List SVal} :
+    ∀ i' sp' n, c[t]? = some (i', sp') → usesArgc i' = true → argcAt c t = some n →
+      ∃ o tl, stk = ⟨.int (I64.ofInt n), o⟩ :: tl := by
+  intro i' sp' n hi' hu _
+  exact (site_target cx.hv cx.look hp hi' hu (isTarget_of hi hj)).elim
+
+theorem jump_sound (cx : Ctx code A s f rest c fa a B bs hd')
+    (po : PointOK code A f.fn c fa f.ip a (.jump t) sp pops l) (lim : Limits) :
+    Sound code A (B :: bs) (a.hs ≠ []) (step code lim s (.jump t) sp) := by
+  have hsucc := po.succ
+  simp only [succs, Option.some.injEq, Prod.mk.injEq] at hsucc
+  obtain ⟨rfl, rfl⟩ := hsucc
+  have hflow := po.flow (t, a) (by simp)
+  rw [step_jump _ _ _ _ _ _ _ cx.calls]
+  exact same (cx.intra rfl hflow cx.hh cx.mp cx.hd (site_tg cx po.instr (Or.inl rfl) hflow))
+
+theorem nonempty_of_h (cx : Ctx code A s f rest c fa a B bs hd') (h : 1 ≤ a.h) :
+    ∃ x tl, s.stack = x :: tl := by
+  have := cx.hh
+  cases hs : s.stack with
+  | nil => rw [hs] at this; simp at this; omega
+  | cons x tl => exact ⟨x, tl, rfl⟩
+
+theorem jumpIfFalse_sound (cx : Ctx code A s f rest c fa a B bs hd')
+    (po : PointOK code A f.fn c fa f.ip a (.jumpIfFalse t) sp pops l) (lim : Limits) :
+    Sound code A (B :: bs) (a.hs ≠ []) (step code lim s (.jumpIfFalse t) sp) := by
+  have hsucc := po.succ
+  simp only [succs] at hsucc
+  split at hsucc
+  · rename_i hp
+    simp only [Option.some.injEq, Prod.mk.injEq] at hsucc
+    obtain ⟨rfl, rfl⟩ := hsucc
+    have hf1 := po.flow (f.ip + 1, { a with h := a.h - 1 }) (by simp)
+    have hf2 := po.flow (t, { a with h := a.h - 1 }) (by simp)
+    obtain ⟨x, tl, hs⟩ := nonempty_of_h cx hp
+    have hle := cx.hh
+    refine (step_jumpIfFalse code lim s t sp x tl hs).mono' ?_ ?_ ?_
+    · rintro s' _ ⟨h1, ⟨h2, h3, h4⟩, h5⟩
+      have hc : B.b + (a.h - 1) = s'.stack.length := by
+        rw [h1]; rw [hs] at hle; simp at hle; omega
+      rcases h5 with h5 | ⟨f', fr, h5, h6⟩
+      · exact same (cx.intra (by rw [h5, cx.adv]) hf1 hc (by rw [h3, cx.mp]) (by rw [h2, cx.hd])
+          (site_ft po.instr (by intro v; simp)))
+      · rw [cx.calls] at h5
+        simp only [List.cons.injEq] at h5
+        obtain ⟨rfl, rfl⟩ := h5
+        exact same (cx.intra h6 hf2 hc (by rw [h3, cx.mp]) (by rw [h2, cx.hd])
+          (site_tg cx po.instr (Or.inr (Or.inl rfl)) hf2))
+    · intro _ _ _ h; exact h.elim
+    · intro _ _ _ h; exact h
+  · cases hsucc
+
+theorem getVar_sound (cx : Ctx code A s f rest c fa a B bs hd') {k : Nat}
+    (po : PointOK code A f.fn c fa f.ip a (.getVar k) sp pops l) (lim : Limits)
+    (hlim : s.mp < (lim.memory : Int)) :
+    Sound code A (B :: bs) (a.hs ≠ []) (step code lim s (.getVar k) sp) := by
+  have hsucc := po.succ
+  simp only [succs] at hsucc
+  split at hsucc
+  · rename_i hk
+    simp only [Option.some.injEq, Prod.mk.injEq] at hsucc
+    obtain ⟨rfl, rfl⟩ := hsucc
+    have hf1 := po.flow (f.ip + 1, { a with h := a.h + 1 }) (by simp)
+    have hmp := cx.mp
+    have hmb := cx.mb
+    have hle := cx.hh
+    rcases step_getVar code lim s k sp with ⟨h1, _⟩ | ⟨_, ⟨v, _, h2⟩ | ⟨_, h2⟩⟩
+    · exact absurd ⟨by omega, by omega⟩ h1
+    · rw [h2]
+      exact same (cx.intra (by simp [cx.adv]) hf1 (by simp; omega) (by simp [cx.mp]) (by simp [cx.hd])
+        (site_ft po.instr (by intro v; simp)))
+    · rw [h2]; simp [Sound, Sat3, NoBad]
+  · cases hsucc
+
+theorem setVar_sound (cx : Ctx code A s f rest c fa a B bs hd') {k : Nat}
+    (po : PointOK code A f.fn c fa f.ip a (.setVar k) sp pops l) (lim : Limits)
+    (hlim : s.mp < (lim.memory : Int)) :
+    Sound code A (B :: bs) (a.hs ≠ []) (step code lim s (.setVar k) sp) := by
+  have hsucc := po.succ
+  simp only [succs] at hsucc
+  split at hsucc
+  · rename_i hk
+    simp only [Option.some.injEq, Prod.mk.injEq] at hsucc
+    obtain ⟨rfl, rfl⟩ := hsucc
+    have hf1 := po.flow (f.ip + 1, { a with h := a.h - 1 }) (by simp)
+    have hmp := cx.mp
+    have hmb := cx.mb
+    have hle := cx.hh
+    obtain ⟨x, tl, hs⟩ := nonempty_of_h cx hk.2
+    rcases step_setVar code lim s k sp with ⟨h0, _⟩ | ⟨x', tl', hs', ⟨h1, _⟩ | ⟨_, h2⟩⟩
+    · rw [hs] at h0; cases h0
+    · exact absurd ⟨by omega, by omega⟩ h1
+    · rw [hs] at hs'; cases hs'
+      rw [h2]
+      refine same (cx.intra (by simp [memSet, cx.adv]) hf1 ?_ (by simp [memSet, cx.mp]) (by simp [memSet, cx.hd])
+        (site_ft po.instr (by intro v; simp)))
+      rw [hs] at hle; simp at hle
+      simp [memSet]; omega
+  · cases hsucc
+
+theorem setTry_sound (cx : Ctx code A s f rest c fa a B bs hd') {fn : String}
+    (po : PointOK code A f.fn c fa f.ip a (.setTry fn t) sp pops l) (lim : Limits) :
+    Sound code A (B :: bs) (a.hs ≠ []) (step code lim s (.setTry fn t) sp) := by
+  have hsucc := po.succ
+  simp only [succs] at hsucc
+  split at hsucc
+  · rename_i hfn
+    simp only [Option.some.injEq, Prod.mk.injEq] at hsucc
+    obtain ⟨rfl, rfl⟩ := hsucc
+    have hf1 := po.flow (f.ip + 1, { a with hs := (t, a.h, a.off) :: a.hs }) (by simp)
+    rw [step_setTry]
+    refine same (cx.intra (by simp [cx.adv]) hf1 (by simpa using cx.hh) (by simp [cx.mp]) ?_
+      (site_ft po.instr (by intro v; simp)))
+    simp [hmap, cx.hd, hfn, cx.calls, cx.hh, cx.mp]
+  · cases hsucc
+
+theorem popTry_sound (cx : Ctx code A s f rest c fa a B bs hd')
+    (po : PointOK code A f.fn c fa f.ip a .popTry sp pops l) (lim : Limits) :
+    Sound code A (B :: bs) (a.hs ≠ []) (step code lim s .popTry sp) := by
+  have hsucc := po.succ
+  simp only [succs] at hsucc
+  split at hsucc
+  · rename_i lh hs' hhs
+    simp only [Option.some.injEq, Prod.mk.injEq] at hsucc
+    obtain ⟨rfl, rfl⟩ := hsucc
+    have hf1 := po.flow (f.ip + 1, { a with hs := hs' }) (by simp)
+    have hh : s.handlers = ⟨⟨f.fn, lh.1⟩, rest.length + 1, B.b + lh.2.1, B.mb + (lh.2.2 : Int)⟩
+        :: (hmap f.fn (rest.length + 1) B hs' ++ hd') := by
+      rw [cx.hd, hhs]; simp [hmap]
+    rw [step_popTry _ _ _ _ _ _ hh]
+    exact same (cx.intra (by simp [cx.adv]) hf1 (by simpa using cx.hh) (by simp [cx.mp]) (by simp)
+      (site_ft po.instr (by intro v; simp)))
+  · cases hsucc
+
+theorem addMp_sound (cx : Ctx code A s f rest c fa a B bs hd') {n : Int}
+    (po : PointOK code A f.fn c fa f.ip a (.addMp n) sp pops l) (lim : Limits) :
+    Sound code A (B :: bs) (a.hs ≠ []) (step code lim s (.addMp n) sp) := by
+  have hsucc := po.succ
+  simp only [succs] at hsucc
+  split at hsucc
+  · rename_i hn
+    simp only [Option.some.injEq, Prod.mk.injEq] at hsucc
+    obtain ⟨rfl, rfl⟩ := hsucc
+    have hf1 := po.flow (f.ip + 1, { a with off := ((a.off : Int) + n).toNat }) (by simp)
+    rcases step_addMp code lim s n sp with ⟨_, h2⟩ | ⟨_, msg, h2⟩
+    · rw [h2]
+      refine same (cx.intra (by simp [cx.adv]) hf1 (by simpa using cx.hh) ?_ (by simp [cx.hd])
+        (site_ft po.instr (by intro v; simp)))
+      simp only [advance_mp]
+      rw [cx.mp, Int.toNat_of_nonneg hn]; omega
+    · rw [h2]
+      intro msg' tsp h; cases h
+  · cases hsucc
+
+theorem throw_sound (cx : Ctx code A s f rest c fa a B bs hd')
+    (po : PointOK code A f.fn c fa f.ip a .throw sp pops l) (lim : Limits) :
+    Sound code A (B :: bs) (a.hs ≠ []) (step code lim s .throw sp) := by
+  have hsucc := po.succ
+  simp only [succs] at hsucc
+  split at hsucc
+  · rename_i hp
+    simp only [Option.some.injEq, Prod.mk.injEq] at hsucc
+    obtain ⟨rfl, rfl⟩ := hsucc
+    obtain ⟨x, tl, hs⟩ := nonempty_of_h cx hp
+    refine (step_throw code lim s sp x tl hs).mono' ?_ ?_ ?_
+    · intro _ _ h; exact h.elim
+    · rintro x' s' _ ⟨h1, ⟨h2, h3, _⟩, h5⟩ msg tsp _ hne s'' ht
+      exact cx.dispatch po.handler po.entry hne h2 h5.symm (by rw [h1, hs]; simp) ht
+    · intro _ _ _ h; exact h
+  · cases hsucc
+
+theorem ret_sound (cx : Ctx code A s f rest c fa a B bs hd')
+    (po : PointOK code A f.fn c fa f.ip a .ret sp pops l) (lim : Limits) :
+    Sound code A (B :: bs) (a.hs ≠ []) (step code lim s .ret sp) := by
+  have hsucc := po.succ
+  simp only [succs] at hsucc
+  split at hsucc
+  · rename_i hr
+    obtain ⟨h1, h2, h3⟩ := hr
+    rw [step_ret]
+    have hcalls : ({ s with calls := s.calls.tail } : VMState).calls = rest := by simp [cx.calls]
+    have hhd : s.handlers = hd' := by rw [cx.hd, h3]; simp [hmap]
+    have hmp : s.mp = B.mb := by rw [cx.mp, h2]; simp
+    have hb : InvL code A false rest bs s.stack.length s.mp s.handlers B.b := by
+      rw [hhd, hmp, ← cx.hh, h1]
+      exact cx.below
+    refine ⟨bs, ⟨by rw [hcalls]; exact InvL_top hb, ?_⟩, Or.inr (Or.inr rfl)⟩
+    -- the caller resumes right after a call instruction, which is not a `copyPush`
+    intro g rest' cg i' sp' n hc' hf' hi' hu hn
+    rw [hcalls] at hc'
+    subst hc'
+    cases bs with
+    | nil => simp [InvL] at hb
+    | cons Bg bs' =>
+      simp only [InvL] at hb
+      obtain ⟨cg', fg, ag, _, hlk, _, _, _, _, _, hret, _⟩ := hb
+      obtain ⟨⟨k, ik, spk, hk1, hk2, hk3⟩, _⟩ := hret trivial
+      have := lookup_findCode _ _ _ _ _ hlk
+      rw [hf'] at this; cases this
+      rw [hk1] at hn
+      refine (site_fallthrough hk2 ?_ hn).elim
+      intro v e; rw [e] at hk3; cases hk3
+  · cases hsucc
+
+/-- The recorded height of the innermost handler stays below the stack after `pops` pops. -/
+theorem handler_region (hh : handlerOK fa.pts a pops = true) :
+    ∀ x tl, a.hs = x :: tl → x.2.1 + pops ≤ a.h := by
+  intro x tl hx
+  obtain ⟨l', H, o⟩ := x
+  simp only [handlerOK, hx, Bool.and_eq_true, decide_eq_true_eq] at hh
+  exact hh.2
+
+/-- Lemma B: entering a function. `d`: operands removed before the callee starts (0 for
+`callImm`, 2 for `callVal`). -/
+theorem Ctx.call (cx : Ctx code A s f rest c fa a B bs hd') (hi : c[f.ip]? = some (i, sp))
+    (hcall : isCall i = true) {g : String} {cg : FnCode} {fg : FnAnn}
+    (hg : lookupFn code A g = some (cg, fg)) {d : Nat} {s' : VMState} {a' : Ann}
+    (hc : s'.calls = ⟨g, 0⟩ :: { f with ip := f.ip + 1 } :: rest)
+    (hlen : s'.stack.length + d = s.stack.length) (hmp : s'.mp = s.mp) (hh : s'.handlers = s.handlers)
+    (hd : d + fg.params ≤ a.h) (hp : fa.pts[f.ip + 1]? = some (some a'))
+    (ha1 : a'.h = a.h - (d + fg.params) + fg.results) (ha2 : a'.off = a.off) (ha3 : a'.hs = a.hs)
+    (hreg : ∀ x tl, a.hs = x :: tl → x.2.1 + (d + fg.params) ≤ a.h) :
+    ∃ bs', InvB code A s' bs' ∧ Rel (B :: bs) bs' := by
+  obtain ⟨_, hentry, _⟩ := verify_fn cx.hv hg
+  have hle := cx.hh
+  have hmb := cx.mb
+  have hmpe := cx.mp
+  refine ⟨⟨B.b + a.h - d - fg.params, s.mp⟩ :: B :: bs, ⟨?_, ?_⟩, Or.inr (Or.inl ⟨_, rfl⟩)⟩
+  · rw [hc]
+    simp only [InvL]
+    refine ⟨cg, fg, _, s.handlers, hg, hentry, by (try dsimp only); omega, by (try dsimp only); omega,
+      by simp [hmp], by simp [hmap, hh], by simp, ?_⟩
+    refine ⟨c, fa, a', hd', cx.look, hp, by (try dsimp only); rw [ha1]; omega, cx.mb, by rw [ha2]; exact cx.mp,
+      by rw [ha3]; exact cx.hd, ?_, cx.below⟩
+    intro _
+    refine ⟨⟨f.ip, i, sp, rfl, hi, hcall⟩, by (try dsimp only); omega, ?_⟩
+    intro x tl hx
+    rw [ha3] at hx
+    have := hreg x tl hx
+    (try dsimp only); omega
+  · intro f' rest' c' i' sp' n hc' _ _ _ hn
+    rw [hc] at hc'
+    simp only [List.cons.injEq] at hc'
+    obtain ⟨rfl, _⟩ := hc'
+    simp [argcAt_zero] at hn
+
+theorem sigOf_some {g : String} {p q : Nat} (h : sigOf code A g = some (p, q)) :
+    ∃ cg fg, lookupFn code A g = some (cg, fg) ∧ fg.params = p ∧ fg.results = q := by
+  simp only [sigOf, Option.map_eq_some_iff] at h
+  obtain ⟨⟨cg, fg⟩, h1, h2⟩ := h
+  simp only [Prod.mk.injEq] at h2
+  exact ⟨cg, fg, h1, h2.1, h2.2⟩
+
+theorem callImm_sound (cx : Ctx code A s f rest c fa a B bs hd') {g : String}
+    (po : PointOK code A f.fn c fa f.ip a (.callImm g) sp pops l) (lim : Limits) :
+    Sound code A (B :: bs) (a.hs ≠ []) (step code lim s (.callImm g) sp) := by
+  have hsucc := po.succ
+  simp only [succs] at hsucc
+  split at hsucc
+  · rename_i p q hsig
+    obtain ⟨cg, fg, hg, rfl, rfl⟩ := sigOf_some hsig
+    split at hsucc
+    · rename_i hp
+      simp only [Option.some.injEq, Prod.mk.injEq] at hsucc
+      obtain ⟨rfl, rfl⟩ := hsucc
+      have hf1 := po.flow (f.ip + 1, { a with h := a.h - fg.params + fg.results }) (by simp)
+      rw [step_callImm]
+      exact cx.call po.instr rfl hg (d := 0) (by simp [cx.adv]) (by simp) (by simp) (by simp) (by omega) hf1
+        (by simp) rfl rfl (by simpa using handler_region po.handler)
+    · cases hsucc
+  · cases hsucc
+
+end
+
+section
+variable {code : Code} {A : List FnAnn} {s : VMState} {f : Frame}
+  {rest : List Frame} {c : FnCode} {fa : FnAnn} {a : Ann} {B : Base} {bs : List Base} {hd' : List Handler}
+  {i : RInstr} {sp : Span} {pops : Nat} {l : List (Nat × Ann)} {t : Nat}
+
+theorem site_stack (cx : Ctx code A s f rest c fa a B bs hd') (hsite : SiteOK code s)
+    (hi : c[f.ip]? = some (i, sp)) (hu : usesArgc i = true) {n : Nat} (hn : argcAt c f.ip = some n) :
+    ∃ o tl, s.stack = ⟨.int (I64.ofInt n), o⟩ :: tl ∧ (I64.ofInt (n : Int)).toNat = n :=
+  let ⟨o, tl, h⟩ := hsite f rest c i sp n cx.calls (lookup_findCode _ _ _ _ _ cx.look) hi hu hn
+  ⟨o, tl, h, ofInt_toNat n (argcAt_lt hn)⟩
+
+theorem hostCall_sound (cx : Ctx code A s f rest c fa a B bs hd') (hsite : SiteOK code s) {name : String}
+    (po : PointOK code A f.fn c fa f.ip a (.hostCall name) sp pops l) (lim : Limits) :
+    Sound code A (B :: bs) (a.hs ≠ []) (step code lim s (.hostCall name) sp) := by
+  have hsucc := po.succ
+  simp only [succs] at hsucc
+  split at hsucc
+  · rename_i n hn
+    split at hsucc
+    · rename_i hp
+      simp only [Option.some.injEq, Prod.mk.injEq] at hsucc
+      obtain ⟨rfl, rfl⟩ := hsucc
+      have hf1 := po.flow (f.ip + 1, { a with h := a.h - (1 + n) + hostResults name }) (by simp)
+      obtain ⟨o, tl, hs, hargc⟩ := site_stack cx hsite po.instr rfl hn
+      have hle := cx.hh
+      rw [hs] at hle; simp only [List.length_cons] at hle
+      refine (step_hostCall code lim s name sp _ o tl hs).mono' ?_ ?_ ?_
+      · rintro s' _ ⟨h1, h2, h3, h4, h5, h6⟩
+        rw [hargc] at h2
+        exact same (cx.intra (by rw [h3, cx.adv]) hf1 (by simp only; omega) (by rw [h5, cx.mp]) (by rw [h4, cx.hd])
+          (site_ft po.instr (by intro v; simp)))
+      · rintro x s' _ ⟨h1, h2, h3, h4, h5⟩ msg tsp _ hne s'' ht
+        rw [hargc] at h2
+        exact cx.dispatch po.handler po.entry hne h4 (Or.inl h3) (by rw [hs]; simp only [List.length_cons]; omega) ht
+      · rintro why _ _ ⟨h1, h2⟩
+        rw [hargc] at h1
+        exact ⟨fun e => by have := h1 e; omega, h2⟩
+    · cases hsucc
+  · cases hsucc
+
+theorem spawn_sound {g : String} (lim : Limits) :
+    Sound code A (B :: bs) (a.hs ≠ []) (step code lim s (.spawn g) sp) := by
+  rw [step_spawn]
+  simp [Sound, Sat3, NoBad]
+
+/-- The dynamic hypothesis for `callVal`: a function value that is called is a checked function
+with the arity and the result count the call site was checked for; a builtin or bound member
+leaves a result exactly if the call site expects one. (These are facts of the type discipline
+of the source language, which a height checker cannot see.) -/
+def DynOK (code : Code) (A : List FnAnn) (lim : Limits) (s : VMState) : Prop :=
+  ∀ f rest c fa sp argc o g o' tl, s.calls = f :: rest → lookupFn code A f.fn = some (c, fa) →
+    c[f.ip]? = some (.callVal, sp) → s.stack = ⟨.int argc, o⟩ :: ⟨g, o'⟩ :: tl →
+    (∀ m name, g = .fn m name → ∃ cg fg, lookupFn code A name = some (cg, fg) ∧ fg.params = argc.toNat
+        ∧ fg.results = (fa.dyn.lookup f.ip).getD 0)
+    ∧ (((∃ nm, g = .builtin nm) ∨ (∃ rv nm, g = .bound rv nm)) → ∀ s', step code lim s .callVal sp = .next s' →
+        s'.stack.length + argc.toNat = tl.length + (fa.dyn.lookup f.ip).getD 0)
+
+theorem callVal_sound (cx : Ctx code A s f rest c fa a B bs hd') (hsite : SiteOK code s)
+    (po : PointOK code A f.fn c fa f.ip a .callVal sp pops l) (lim : Limits) (hdyn : DynOK code A lim s) :
+    Sound code A (B :: bs) (a.hs ≠ []) (step code lim s .callVal sp) := by
+  have hsucc := po.succ
+  simp only [succs] at hsucc
+  split at hsucc
+  · rename_i n hn
+    split at hsucc
+    · rename_i hp
+      simp only [Option.some.injEq, Prod.mk.injEq] at hsucc
+      obtain ⟨rfl, rfl⟩ := hsucc
+      have hf1 := po.flow (f.ip + 1, { a with h := a.h - (2 + n) + (fa.dyn.lookup f.ip).getD 0 }) (by simp)
+      obtain ⟨o, tl0, hs, hargc⟩ := site_stack cx hsite po.instr rfl hn
+      have hle := cx.hh
+      rw [hs] at hle; simp only [List.length_cons] at hle
+      cases tl0 with
+      | nil => simp at hle; omega
+      | cons gv tl =>
+        obtain ⟨g, o'⟩ := gv
+        simp only [List.length_cons] at hle
+        obtain ⟨hdfn, hdbi⟩ := hdyn f rest c fa sp _ o g o' tl cx.calls cx.look po.instr hs
+        rw [hargc] at hdfn hdbi
+        have hcases : (∃ m name, g = .fn m name) ∨ ((∃ nm, g = .builtin nm) ∨ (∃ rv nm, g = .bound rv nm))
+            ∨ ((∀ m nm, g ≠ .fn m nm) ∧ (∀ nm, g ≠ .builtin nm) ∧ (∀ r nm, g ≠ .bound r nm)) := by
+          cases g
+          case fn m nm => left; exact ⟨m, nm, rfl⟩
+          case builtin nm => right; left; left; exact ⟨nm, rfl⟩
+          case bound r nm => right; left; right; exact ⟨r, nm, rfl⟩
+          all_goals (right; right; simp)
+        rcases hcases with ⟨m, name, rfl⟩ | hbi | hother
+        · obtain ⟨cg, fg, hg, hpar, hres⟩ := hdfn m name rfl
+          rw [step_callVal_fn code lim s sp _ o o' m name tl hs]
+          exact cx.call po.instr rfl hg (d := 2) (by simp [cx.adv]) (by simp [hs]) (by simp) (by simp)
+            (by omega) hf1 (by simp only; rw [hpar, hres]) rfl rfl
+            (by have := handler_region po.handler; intro x tl' hx; have := this x tl' hx; omega)
+        · refine (step_callVal_builtin code lim s sp _ o o' g tl hs hbi).mono' ?_ ?_ ?_
+          · rintro s' hst ⟨h1, h2, h3, h4, h5, h6⟩
+            have := hdbi hbi s' hst
+            exact same (cx.intra (by rw [h4, cx.adv]) hf1 (by simp only; omega) (by rw [h6.1, cx.mp])
+              (by rw [h5, cx.hd]) (site_ft po.instr (by intro v; simp)))
+          · rintro x s' _ ⟨h1, h2, h3, h4, h5⟩ msg tsp _ hne s'' ht
+            rw [hargc] at h2
+            exact cx.dispatch po.handler po.entry hne h4 (Or.inl h3)
+              (by rw [hs]; simp only [List.length_cons]; omega) ht
+          · rintro why _ _ ⟨h1, h2⟩
+            rw [hargc] at h1
+            exact ⟨fun e => by have := h1 e; omega, h2⟩
+        · have : ∀ argc o f o' rest, s.stack = ⟨.int argc, o⟩ :: ⟨f, o'⟩ :: rest →
+              (∀ m n, f ≠ .fn m n) ∧ (∀ n, f ≠ .builtin n) ∧ (∀ r n, f ≠ .bound r n) := by
+            intro argc' o1 f1 o2 rest1 h
+            rw [hs] at h
+            simp only [List.cons.injEq, SVal.mk.injEq] at h
+            obtain ⟨_, ⟨rfl, _⟩, _⟩ := h
+            exact hother
+          rcases step_callVal_other code lim s sp this with h | h <;> rw [h] <;> simp [Sound, Sat3, NoBad]
+    · cases hsucc
+  · cases hsucc
+
+/-- **Soundness of `verify` for one instruction.** From a state that satisfies the invariant
+(with bases `bs0`), whose memory pointer is within the limit and whose dynamic calls conform,
+`step` on the running instruction re-establishes the invariant (`next`), or is dispatched to a
+handler of the running activation in a state that satisfies the invariant, and never answers
+"stack underflow", "handler stack underflow", "memory index" or "label at run time". -/
+theorem step_sound (hv : verify code A = true) {bs0 : List Base} (hinv : InvB code A s bs0)
+    (hc : s.calls = f :: rest) (hf : findCode code f.fn = some c) (hi : c[f.ip]? = some (i, sp))
+    (lim : Limits) (hlim : s.mp < (lim.memory : Int)) (hdyn : DynOK code A lim s) :
+    ∃ fa a, lookupFn code A f.fn = some (c, fa) ∧ fa.pts[f.ip]? = some (some a) ∧
+      Sound code A bs0 (a.hs ≠ []) (step code lim s i sp) := by
+  obtain ⟨c', fa, a, B, bs, hd', rfl, cx⟩ := hinv.unpack hv hc
+  have hc' := lookup_findCode _ _ _ _ _ cx.look
+  rw [hf] at hc'; cases hc'
+  obtain ⟨i', sp', pops, l, po⟩ := verify_point hv cx.look cx.pt
+  have := po.instr
+  rw [hi] at this
+  simp only [Option.some.injEq, Prod.mk.injEq] at this
+  obtain ⟨rfl, rfl⟩ := this
+  refine ⟨fa, a, cx.look, cx.pt, ?_⟩
+  cases hse : simpleEff i with
+  | some pq => exact simple_sound cx po lim hse
+  | none =>
+    cases i <;> simp only [simpleEff, reduceCtorEq] at hse
+    case spawn g => exact spawn_sound lim
+    case callVal => exact callVal_sound cx hinv.2 po lim hdyn
+    case callImm g => exact callImm_sound cx po lim
+    case ret => exact ret_sound cx po lim
+    case hostCall name => exact hostCall_sound cx hinv.2 po lim
+    case jump t => exact jump_sound cx po lim
+    case jumpIfFalse t => exact jumpIfFalse_sound cx po lim
+    case getVar k => exact getVar_sound cx po lim hlim
+    case setVar k => exact setVar_sound cx po lim hlim
+    case setTry fn t => exact setTry_sound cx po lim
+    case popTry => exact popTry_sound cx po lim
+    case throw => exact throw_sound cx po lim
+    case label t => have := po.succ; simp [succs] at this
+    case addMp n => exact addMp_sound cx po lim
+
+end
+
 end HmsProofs.Lemmas.VMCheck
